@@ -103,6 +103,11 @@ def generate(tier, seed):
     return [gen_case(rnd, i) for i in range(n)]
 
 
+def prep(itf):
+    itf.py_prep_deterministic_simulation()
+    return itf
+
+
 def run_case(case):
     import numpy as np
     from scipy.integrate import solve_ivp
@@ -154,19 +159,25 @@ def run_case(case):
     tol = 2e-5 * scale
     moves = bool((np.abs(ref1 - x0).max(axis=0) > 0.1 * scale).any())
     runs = {}
-    df = py_simulate_model(tp.copy(), Model=M, stochastic=False)
-    runs["py_simulate_model(dataframe)"] = df[species].to_numpy(dtype=float)
-    res = py_simulate_model(tp.copy(), Model=M, stochastic=False, return_dataframe=False)
-    runs["py_simulate_model(result)"] = np.array(res.py_get_result())
-    itf = ModelCSimInterface(M)
-    itf.py_prep_deterministic_simulation()
-    runs["DeterministicSimulator.py_simulate(plain)"] = np.array(DeterministicSimulator().py_simulate(itf, tp.copy()).py_get_result())
+    calls = {
+        "py_simulate_model(dataframe)": lambda: py_simulate_model(tp.copy(), Model=M, stochastic=False)[species].to_numpy(dtype=float),
+        "py_simulate_model(result)": lambda: np.array(py_simulate_model(tp.copy(), Model=M, stochastic=False, return_dataframe=False).py_get_result()),
+        "DeterministicSimulator.py_simulate(plain)": lambda: np.array(DeterministicSimulator().py_simulate(prep(ModelCSimInterface(M)), tp.copy()).py_get_result()),
+    }
     if ref1.min() >= 0.5:
-        si = SafeModelCSimInterface(M)
-        si.py_prep_deterministic_simulation()
-        runs["DeterministicSimulator.py_simulate(safe)"] = np.array(DeterministicSimulator().py_simulate(si, tp.copy()).py_get_result())
-        runs["py_simulate_model(safe=True)"] = py_simulate_model(tp.copy(), Model=M, stochastic=False, safe=True)[species].to_numpy(dtype=float)
+        calls["DeterministicSimulator.py_simulate(safe)"] = lambda: np.array(DeterministicSimulator().py_simulate(prep(SafeModelCSimInterface(M)), tp.copy()).py_get_result())
+        calls["py_simulate_model(safe=True)"] = lambda: py_simulate_model(tp.copy(), Model=M, stochastic=False, safe=True)[species].to_numpy(dtype=float)
         C["safe_runs"] += 1
+    frac_hill = any(r["type"] in ref.HILL and ref.pval(r["fields"]["n"], sp["params"]) != int(ref.pval(r["fields"]["n"], sp["params"])) for r in sp["reactions"])
+    for name, fn in calls.items():
+        try:
+            runs[name] = fn()
+        except Exception as e:
+            C["trajectories_compared"] += 1
+            mech = "simulation-raises"
+            if isinstance(e, TypeError) and "complex" in str(e) and frac_hill:
+                mech = "simulation-raises:fractional-hill-exponent-negative-excursion"
+            viol.append({"key": "C04/" + mech, "msg": "%s raised %s: %s" % (name, type(e).__name__, str(e)[:160])})
     for name, X in runs.items():
         C["trajectories_compared"] += 1
         if X.shape != ref1.shape:
